@@ -10,7 +10,7 @@ REPO = os.environ.get("VERIF_REPO", "/repo")
 GUARD = "IPHREEQC_VERIF"
 
 VARIANTS = {
-    "asan":  "-O1 -g -fsanitize=address,undefined -fno-sanitize-recover=undefined -fno-omit-frame-pointer",
+    "asan":  "-O1 -g -fsanitize=address,undefined -fno-sanitize-recover=undefined -fno-omit-frame-pointer -fsanitize-ignorelist=" + os.path.join(os.path.dirname(os.path.dirname(os.path.abspath(__file__))), "sim", "ubsan_ignore.txt"),
     "tsan":  "-O1 -g -fsanitize=thread -fno-omit-frame-pointer",
     "plain": "-O2 -g",
 }
